@@ -479,8 +479,80 @@ def judge_restart(case):
             "sample": {"restart_family": fam, "splitters": case["names"], "hash_seeds": case["seeds"][:len(fam)]}}
 
 
+def targeting_cases():
+    """a ramp whose revisions alternately stand alone and sit inside a targeting condition (a condition field is added, dropped,
+    added again), several splitters declared out of alphabetical order"""
+    for names, fam, salt in ((["user_id", "Tenant", "region"], [["10", "90"], ["20", "80"], ["35", "65"], ["50", "50"], ["80", "20"]], "ramp"),
+                             (["uid", "country"], [["1", "9"], ["2", "8"], ["5", "5"]], None), (["b", "a", "B", "A"], [["1", "1", "8"], ["2", "1", "7"], ["2", "3", "5"], ["4", "3", "3"]], "")):
+        for first_plain in (True, False):
+            units = [dict({n: "%s-%d" % (n[:1], (i * 7 + j) % 50) for j, n in enumerate(names)}, plan="pro") for i in range(200)]
+            yield {"targeting": True, "names": names, "family": fam, "salt": salt, "units": [M.enc_inputs(u) for u in units], "first_plain": first_plain}
+
+
+def judge_targeting(case):
+    fam, names = case["family"], case["names"]
+    texts = []
+    for vi, ws in enumerate(fam):
+        body = M.ret([(M.lit_str("g%d" % gi), w) for gi, w in enumerate(ws)])
+        if (vi % 2 == 0) != case["first_plain"]:
+            body = M.if_([(M.cmp_(M.ident("plan"), "==", M.lit_str("pro")), body)], M.ret([(M.lit_str("off"), "1")]))
+        texts.append(M.render(M.program("ramp", body, salt=case["salt"], splitters=names)))
+    units = [M.dec_inputs(u) for u in case["units"]]
+    viol = []
+    live = None
+    idx = []
+    for vi, text in enumerate(texts):
+        fresh = sut.compile_text(text)
+        if fresh[0] != "ok":
+            return {"viol": ["does not compile: %s %s | %s" % (fresh[1], fresh[2], text)], "tags": ["targeting"], "key": case}
+        try:
+            if live is None:
+                live = sut.evaluator_mod().ExperimentEvaluator(text)
+            else:
+                live.recompile(text)
+        except Exception as e:
+            return {"viol": ["live evaluator: recompile to revision %d raised %s: %s | %s" % (vi, type(e).__name__, e, text)], "tags": ["targeting"], "key": case}
+        row = []
+        for u in units:
+            a, b = sut.call(fresh[1], u), sut.call(live, u)
+            if a[0] != "group" or not str(a[1]).startswith("g"):
+                return {"viol": ["unexpected outcome %r for %r | %s" % (a, u, text)], "tags": ["targeting"], "key": case}
+            if a != b:
+                viol.append("revision %d (%s): a fresh evaluator gives %r, the long-lived evaluator recompile()d through the revisions gives %r | unit %r | %s"
+                            % (vi, "inside a targeting condition" if " if " in text else "stand-alone", a[1:], b[1:], u, text))
+                break
+            row.append(int(a[1][1:]))
+        if viol:
+            break
+        idx.append(row)
+    moved = 0
+    if not viol:
+        for ui, u in enumerate(units):
+            lo, hi = Fraction(0), Fraction(1)
+            for vi, ws in enumerate(fam):
+                pre = _prefix(ws)
+                g = idx[vi][ui]
+                if vi and g > idx[vi - 1][ui]:
+                    viol.append("unit %r moved to a later group (%d -> %d) when weights %r -> %r were deployed together with a targeting condition being "
+                                "%s, although no prefix share decreased | %s" % (u, idx[vi - 1][ui], g, fam[vi - 1], ws, "added" if " if " in texts[vi] else "dropped", texts[vi]))
+                    break
+                if vi and g != idx[vi - 1][ui]:
+                    moved += 1
+                lo, hi = max(lo, pre[g]), min(hi, pre[g + 1])
+            else:
+                if lo >= hi + Fraction(1, 10 ** 9):
+                    viol.append("unit %r: no single position is consistent with its groups %r under %r (revisions alternately inside / outside a condition)"
+                                % (u, [idx[vi][ui] for vi in range(len(fam))], fam))
+            if len(viol) >= 3:
+                break
+    return {"viol": viol[:3], "nontrivial": moved > 0, "tags": ["targeting", "splitters:%d" % len(names)], "key": [names, fam, case["salt"], case["first_plain"]],
+            "sample": {"targeting_family": fam, "splitters": names, "first_revision_stands_alone": case["first_plain"]}}
+
+
 def judge_case(record):
     c = record["case"]
+    if c.get("targeting"):
+        return judge_targeting(c)["viol"]
     if c.get("restart"):
         return judge_restart(c)["viol"]
     if c.get("spellings"):
@@ -491,6 +563,9 @@ def judge_case(record):
 def run(ctx, rec):
     if ctx.shard == 0:
         runner.direct_run(ctx, rec, "ramp-rolled-out-by-restarts", restart_cases(), judge_restart)
+        if rec.violations:
+            return
+        runner.direct_run(ctx, rec, "revisions-that-add-or-drop-a-targeting-condition", targeting_cases(), judge_targeting)
         if rec.violations:
             return
         runner.direct_run(ctx, rec, "fixed-families-in-every-spelling", fixed_families(), judge)
